@@ -119,10 +119,10 @@ def run_case(case):
             r['k'] = i if i < nkeys else rng.randrange(nkeys)
     # key shape
     shape = rng.choice(['list_same', 'list_diff', 'composite', 'fmt_literal', 'rownum', 'fmt_rownum', 'equal_but_distinct',
-                        'fmt_spec', 'list_odd_name', 'composite_sep'])
+                        'fmt_spec', 'list_odd_name', 'composite_sep', 'fmt_two_fields'])
     if spill:
         shape = rng.choice(['list_same', 'fmt_literal'])
-    if mode == 'dedup' and shape in ('list_diff', 'rownum', 'fmt_rownum'):
+    if mode == 'dedup' and shape in ('list_diff', 'rownum', 'fmt_rownum', 'fmt_two_fields'):
         shape = 'composite'
     odd_name = None
     if shape == 'list_odd_name':
@@ -132,13 +132,15 @@ def run_case(case):
     fspec = rng.choice([':03', '!s', ':>4', '!r:>5'])
     tk_names = {'list_same': ['k'], 'list_diff': ['tk'], 'composite': ['k', 'k2'], 'fmt_literal': ['tk'],
                 'rownum': [], 'fmt_rownum': ['tk'], 'equal_but_distinct': ['k'], 'fmt_spec': ['tk'],
-                'composite_sep': ['k2', 's']}[shape]
+                'composite_sep': ['k2', 's'], 'fmt_two_fields': ['ta', 'tk']}[shape]
     source_key = {'list_same': ['k'], 'list_diff': ['k'], 'composite': ['k', 'k2'],
                   'fmt_literal': 'K-{k}', 'rownum': ['#'], 'fmt_rownum': '{#}', 'equal_but_distinct': ['k'],
-                  'fmt_spec': 'K-{k%s}' % fspec, 'composite_sep': ['k2', 's']}[shape]
+                  'fmt_spec': 'K-{k%s}' % fspec, 'composite_sep': ['k2', 's'],
+                  # two format strings whose fields pair up in the order of use: k2 -> ta, k -> tk (not alphabetically)
+                  'fmt_two_fields': '{k2}/{k}'}[shape]
     target_key = {'list_same': ['k'], 'list_diff': ['tk'], 'composite': ['k', 'k2'],
                   'fmt_literal': '{tk}', 'rownum': ['#'], 'fmt_rownum': '{tk}', 'equal_but_distinct': ['k'],
-                  'fmt_spec': '{tk}', 'composite_sep': ['k2', 's']}[shape]
+                  'fmt_spec': '{tk}', 'composite_sep': ['k2', 's'], 'fmt_two_fields': '{ta}/{tk}'}[shape]
     if shape == 'fmt_spec':
         for r in S:         # a format spec cannot render null
             if r['k'] is None:
@@ -173,6 +175,8 @@ def run_case(case):
         elif shape == 'composite_sep':
             row['k2'], row['s'] = rng.choice([('x:y', 'z'), ('x', 'y:z'), ('x', 'z'), ('q', 'q'),
                                               ('logs\\', 'app:old'), ('logs:app\\', 'old'), ('a\\:b', 'c')])
+        elif shape == 'fmt_two_fields':
+            row['ta'], row['tk'] = rng.choice(['x', 'y', 'zz', 'w']), kv
         elif shape == 'fmt_literal':
             row['tk'] = 'K-%s' % kv
         elif shape == 'fmt_spec':
@@ -181,7 +185,7 @@ def run_case(case):
             row['tk'] = rng.randint(1, max(1, ns + 1))
         T.append(row)
     t_fields = [('tid', 'integer'), ('keep', 'string')] + \
-               [(n, {'k': 'integer' if shape != 'equal_but_distinct' else 'any', 'k2': 'string'}.get(
+               [(n, {'k': 'integer' if shape != 'equal_but_distinct' else 'any', 'k2': 'string', 'ta': 'string'}.get(
                    n, 'string' if shape in ('fmt_literal', 'fmt_spec', 'composite_sep') else 'integer')) for n in tk_names]
     # fields mapping
     fields, ref_fields = {}, {}
